@@ -46,8 +46,19 @@ func assignedFields(fd *ast.FuncDecl, vars map[string]bool) []string {
 	if fd == nil || fd.Body == nil {
 		return nil
 	}
-	ast.Inspect(fd.Body, func(n ast.Node) bool {
+	// only statements that run on every call count: the top-level statements of the body (and of plain
+	// nested blocks), not what sits under an if, a loop or a switch - a reset that depends on a condition
+	// is not a reset
+	var visit func(n ast.Node) bool
+	walk := func(list []ast.Stmt) {
+		for _, st := range list {
+			visit(st)
+		}
+	}
+	visit = func(n ast.Node) bool {
 		switch s := n.(type) {
+		case *ast.BlockStmt:
+			walk(s.List)
 		case *ast.AssignStmt:
 			for _, l := range s.Lhs {
 				switch x := l.(type) {
@@ -74,7 +85,8 @@ func assignedFields(fd *ast.FuncDecl, vars map[string]bool) []string {
 			}
 		}
 		return true
-	})
+	}
+	walk(fd.Body.List)
 	out := []string{}
 	for k := range set {
 		out = append(out, k)
